@@ -5,6 +5,7 @@ import (
 	"go/constant"
 	"go/token"
 	"go/types"
+	"regexp"
 	"strings"
 
 	"gmslverif/fw"
@@ -342,6 +343,7 @@ func checkC17(c *fw.Ctx) {
 	}
 	checkBuildFormats(c)
 	checkLenientAcceptors(c, "4 grammar", "spec.parseAndValidateRoomID", "spec.parseAndValidateUserID", "spec.ParseAndValidateServerName")
+	checkGrammarRegexps(c, "4 grammar")
 }
 
 // checkFieldsTable: CheckFields classification (oracle 4.9) decided structurally:
@@ -800,4 +802,52 @@ func checkLenientAcceptors(c *fw.Ctx, rule string, specs ...string) {
 		}
 	}
 	c.Count("strict library acceptors recognised in the identifier parsers", strict)
+}
+
+// checkGrammarRegexps ("4 grammar"): the regular expressions that decide identifier grammars are
+// anchored at both ends and case sensitive. Go's (?i) is Unicode simple case folding: under it
+// [a-z] / k also match U+212A KELVIN SIGN and s matches U+017F LONG S, so a pattern that reads
+// "ASCII letters, either case" accepts non-ASCII identifiers.
+func checkGrammarRegexps(c *fw.Ctx, rule string) {
+	n := 0
+	var fns []*ssa.Function
+	seenPkg := map[*ssa.Package]bool{}
+	for _, fn := range c.P.SrcFuncs() {
+		if fn.Pkg == nil || !strings.HasSuffix(fn.Pkg.Pkg.Path(), "/spec") {
+			continue
+		}
+		fns = append(fns, fn)
+		if !seenPkg[fn.Pkg] {
+			seenPkg[fn.Pkg] = true
+			if ini := fn.Pkg.Func("init"); ini != nil {
+				fns = append(fns, ini) // package-level `var re = regexp.MustCompile(...)`
+			}
+		}
+	}
+	for _, fn := range fns {
+		for _, call := range fw.Calls(fn) {
+			switch fw.CalleeName(call) {
+			case "regexp.MustCompile", "regexp.Compile", "regexp.MustCompilePOSIX", "regexp.CompilePOSIX", "regexp.MatchString", "regexp.Match":
+			default:
+				continue
+			}
+			pat, ok := fw.ConstString(call.Common().Args[0])
+			if !ok {
+				continue
+			}
+			n++
+			construct := fmt.Sprintf("identifier pattern %q is anchored and case sensitive", pat)
+			pos := c.P.Pos(call.Pos())
+			flags := regexp.MustCompile(`\(\?[a-zA-Z]*i[a-zA-Z]*[:)-]`)
+			switch {
+			case flags.MatchString(pat):
+				c.Fail(rule, construct, pos, "the pattern is matched case-insensitively: Go folds case over all of Unicode, so letter classes also match U+212A (Kelvin sign, folds to k) and U+017F (long s): identifiers with non-ASCII characters are accepted")
+			case !strings.HasPrefix(pat, "^") || !strings.HasSuffix(pat, "$"):
+				c.Undecided(rule, construct, "the pattern is not anchored at both ends by ^ and $ ("+pos+")")
+			default:
+				c.Ok(rule, construct, pos, "")
+			}
+		}
+	}
+	c.Min(rule+" identifier patterns", n, 2)
 }
